@@ -658,12 +658,6 @@ def copy_returns_a_datatype(ctx):
             continue
         ctx.analysed(f)
         cfg = CFG(f.node, m, f.module)
-        bad = []
-        for a, lab in cfg.pred.get(cfg.exit, []):
-            st = cfg.nodes[a].ast
-            if lab == 'exc':
-                continue
-            if not (isinstance(st, ast.Return) and st.value is not None and not (isinstance(st.value, ast.Constant) and st.value.value is None)):
-                bad.append(st)
+        bad = can_end_without_value(cfg, f.node)
         ctx.check(not bad, f'{f.qualname}:returns the copy', f.node, 'every normal exit returns an object',
                   f'{ci.name}.copy() can return None: Parameter.clone / DataType.copy callers then hold no datatype', f)
